@@ -732,6 +732,9 @@ func (x *Exec) specCall(e *ast.CallExpr, sc *SpecScope, st *State) *Value {
 	case "bytes":
 		// abstract content of a byte slice
 		v := arg(0)
+		if v.Tm != nil && v.Tm.S == IntS && v.Tm.IsLit() {
+			v = &Value{Tm: MkSlice(IntLit(0), IntLit(0), IntLit(0))}
+		}
 		if v.Tm == nil || v.Tm.S != SliceS {
 			panic(engErr("bytes() expects a slice"))
 		}
